@@ -38,7 +38,7 @@
    the `_pinned` theorems.  Configurations are built with [current] (what
    run_C15 and every headline theorem use) or [pinned]. *)
 From Coq Require Import ZArith List Bool.
-From PTK Require Import Lib.Sx Lib.Py Model.C15_HistLines.
+From PTK Require Import Lib.Sx Lib.Py Model.C15_HistLines Model.C15_Thread.
 Import ListNotations.
 Open Scope Z_scope.
 
@@ -712,6 +712,9 @@ Definition sx_hist (wl : list str) (t : str) (p wi : Z) : sx :=
 (* case = (cfg text cursor (group ...)) ; result = (obs ...) *)
 Definition run_C15 (x : sx) : sx :=
   match x with
+  | L [A 30; jn; L ls] =>
+      (* the producer-thread life cycle (Model/C15_Thread.v) *)
+      match as_bool jn with Some jn => run_thread jn ls | None => bad_case end
   | L [A 19; L wl; t; A p; A wi] =>
       match map_opt as_str wl, as_str t with
       | Some wl, Some t =>
